@@ -177,6 +177,14 @@ int flush_pubsub_msgs(void *data, const char *key, void *value) {
     m_queue_t *flushed = m_queue_new(mem_dtor);
     if (!flushed) {
         M_WARN("Failed to create flushing queue.\n");
+    } else if (!stopping_mod && m_mod_is(mod, M_MOD_RUNNING) && m_queue_len(mod->batch.events) > 0) {
+        /*
+         * Events already received and waiting in the batch queue are older
+         * than anything still in the pipe: hand them over first, to keep arrival order.
+         */
+        m_queue_t *batched = mod->batch.events;
+        mod->batch.events = flushed;
+        flushed = batched;
     }
 
     while (mod->pubsub_fd[0] != -1 &&
